@@ -50,9 +50,10 @@ RULES = [
     ("R7b", "vm.rs",
      "                    ref inner,\n                    pattern: _,\n",
      "                    ref inner,\n                    ref pattern,\n"),
+    # (the import is added after the first of these lines that is present exactly once)
     ("R7c", "vm.rs",
-     "use crate::{codepoint_len, RegexOptions};\n",
-     "use crate::{codepoint_len, RegexOptions};\n#[allow(unused_imports)]\nuse crate::symtext::{ByteLike, LitLike, Look, LookOn, Text};\n"),
+     ["use crate::{codepoint_len, RegexOptions};\n", "use crate::Result;\n", "use crate::Error;\n", "use crate::Assertion;\n"],
+     "{anchor}#[allow(unused_imports)]\nuse crate::symtext::{ByteLike, LitLike, Look, LookOn, Text};\n"),
     # ---- lib.rs helpers ----------------------------------------------------
     ("R8", "lib.rs",
      "fn prev_codepoint_ix(s: &str, mut ix: usize) -> usize {",
@@ -198,6 +199,12 @@ def main():
             rules = [x for x in rules if x[0] not in (rid, also_skip)] + [repl]
             missing.append(rid + " (fallback " + repl[0] + ")")
     for rid, fname, old, new in rules:
+        if isinstance(old, list):
+            # alternative anchors
+            pick = next((a for a in old if files.get(fname, "").count(a) == 1), None)
+            if pick is None:
+                die("source shape changed at %s: none of the alternative anchors is present in src/%s" % (rid, fname))
+            old, new = pick, new.replace("{anchor}", pick)
         if fname not in files:
             die("source shape changed at %s: no file src/%s" % (rid, fname))
         n = files[fname].count(old)
